@@ -103,6 +103,10 @@ fn make_escape_texts() -> Vec<String> {
         v.push((0..n).map(|k| format!("{{ {} + $ }}", k)).collect::<Vec<_>>().join(" "));
         v.push((0..n).map(|k| format!(":k{} = {{ $ && {} }}", k, k)).collect::<Vec<_>>().join(", "));
     }
+    // names with multi-byte characters (byte length differs from character count) in every position a name can take
+    for t in ["é", ":é", "5 + é", "é + 5", "é.é", "é é", "é €uro", ":é = é", "\"é\" é", "é`5", "5`é", "5`é`5", "{ é } <~ é", "é ?> é |> é", "é && é", "aé", ":aé€b", "é1 é2"] {
+        v.push(t.to_string());
+    }
     for n in ["99999999999", "1e400", "1.0e400", "0.0e0", "036_zz", "037_1", "01_1", "02_2", "0_", "1_", "1__2", "1.2.3", "1..2", ".5", "5.", "1e", "1e+", "0b1", "0x1f"] {
         v.push(n.to_string());
     }
